@@ -826,6 +826,52 @@ writeRuneToBuffer:
 	return nil
 }
 
+// finishAtEOF is called by the parser when the input has ended and it is
+// not inside any bracket: whatever the lexer still holds back (an atom not
+// yet terminated by whitespace, a lone ':', '-', '/', '~', a line comment
+// without newline) becomes a token now. unfinished is true when the input
+// stopped inside a string, raw string, char literal or block comment.
+func (lexer *Lexer) finishAtEOF() (unfinished bool, err error) {
+	switch lexer.state {
+	case LexerNormal:
+		return false, lexer.dumpBuffer()
+	case LexerFreshAssignOrColon:
+		lexer.state = LexerNormal
+		if sliceBoundLiteralBeforeColon(lexer.buffer.String()) {
+			err = lexer.dumpBuffer()
+			if err != nil {
+				return false, err
+			}
+			lexer.AppendToken(lexer.Token(TokenColonOperator, ":"))
+			return false, nil
+		}
+		lexer.buffer.WriteRune(':')
+		return false, lexer.dumpBuffer()
+	case LexerBuiltinOperator:
+		lexer.state = LexerNormal
+		lexer.AppendToken(lexer.Token(TokenSymbol, string(lexer.prevrune)))
+		return false, nil
+	case LexerFirstFwdSlash:
+		lexer.state = LexerNormal
+		err = lexer.dumpBuffer()
+		if err != nil {
+			return false, err
+		}
+		lexer.AppendToken(lexer.Token(TokenSymbol, "/"))
+		return false, nil
+	case LexerUnquote:
+		lexer.state = LexerNormal
+		lexer.AppendToken(lexer.Token(TokenTilde, ""))
+		return false, nil
+	case LexerCommentLine:
+		lexer.dumpComment()
+		lexer.state = LexerNormal
+		return false, nil
+	}
+	// inside a string, raw string, char literal or block comment
+	return true, nil
+}
+
 // extra should be 0 for 1 token lookahead;
 // extra can be 1 to load at least 2 tokens.
 func (lexer *Lexer) PeekNextToken(extra int) (tok Token, err error) {
